@@ -258,6 +258,33 @@ def protocol_postconditions(ctx, inst, facts):
     ctx.oblige("post:stage has declined and definite exits", n_def >= 1 and n_dec >= 1, inst, inst.get("span"), "%d definite, %d declined" % (n_def, n_dec))
 
 
+def tie_window_postconditions(ctx, inst, facts):
+    """C11: the explicit round-to-even window of compute_float, as the code applies it.  Every comparison of the decimal exponent q with a
+    constant is logged as an effective inclusive bound; the bounds that sit at (or next to) the named window constants give the effective
+    window [lo, hi], which must contain the exponents where an exact tie can reach the stage: hi >= max{k: 5^k <= 2^(P+1)} and
+    lo <= -max{k: 5^k < 2^(64-P)} (the same one-sided requirement the constant rule puts on the constants themselves)."""
+    from ..consts import ieee
+    fty = None
+    for t in inst.get("targs", []):
+        if t.get("k") == "float":
+            fty = "f%d" % t["bits"]
+    if fty is None:
+        return
+    P, w, bias, p, bits = ieee(facts, fty)
+    need_hi = max(k for k in range(0, 80) if 5 ** k <= 2 ** (P + 1))
+    need_lo = -max(k for k in range(0, 80) if 5 ** k < 2 ** (64 - P))
+    cmin = facts.float_const(fty, "MIN_EXPONENT_ROUND_TO_EVEN")
+    cmax = facts.float_const(fty, "MAX_EXPONENT_ROUND_TO_EVEN")
+    q = ctx.arg_atoms.get(1)
+    his = sorted(set(v for kind, x, v in ctx.cmp_log if kind == "max" and x == q and abs(v - cmax) <= 1))
+    los = sorted(set(v for kind, x, v in ctx.cmp_log if kind == "min" and x == q and abs(v - cmin) <= 1))
+    ctx.record = True
+    ctx.oblige("post:tie window as applied covers the largest exponent with exact ties", bool(his) and max(his) >= need_hi, inst, inst.get("span"),
+               "effective upper bounds on q next to MAX_EXPONENT_ROUND_TO_EVEN=%d: %s; needs >= %d" % (cmax, his, need_hi))
+    ctx.oblige("post:tie window as applied covers the smallest exponent with exact ties", bool(los) and min(los) <= need_lo, inst, inst.get("span"),
+               "effective lower bounds on q next to MIN_EXPONENT_ROUND_TO_EVEN=%d: %s; needs <= %d" % (cmin, los, need_lo))
+
+
 def saturation_postconditions(ctx, inst, positive):
     """C19: parse_exponent returns the saturation constant only when the accumulator was about to overflow"""
     lim = ((1 << 31) - 1 - 9) // 10 + 1        # smallest accumulator value for which value*10 + digit can exceed i32::MAX
